@@ -80,7 +80,7 @@ func verifH_C07_swap_server() {
 //verif:rand concrete
 //verif:sleep gate
 func verifH_C07_candidate_server() {
-	srv := NewServer(nil, nil)
+	srv := NewServer(nil, &ServerConfig{UpgradeTimeout: time.Second})
 	old := &verifRecServerTransport{name: "polling"}
 	closedSock := 0
 	s := newServerSocket("sid1", nil, old, transport.NewCallbacks(), time.Hour, time.Hour, NewNoopDebugger(), nil)
@@ -95,9 +95,25 @@ func verifH_C07_candidate_server() {
 		c.OnPacket(&parser.Packet{Type: parser.PacketTypePing, Data: []byte("probe")})
 		verifWaitQuiescent2()
 		verifAssert(len(cand.sent) == 1 && cand.sent[0].Type == parser.PacketTypePong && string(cand.sent[0].Data) == "probe", "the probe ping is answered with pong 'probe' on the candidate")
+		// a burst is still queued on the old transport, and writing it to the new one takes ANY amount of time (a slow
+		// reader): the upgrade was in time, so the upgrade timer must not touch the new transport whatever the flush takes
+		old.queued = []*parser.Packet{verifNumbered('7')}
+		slow := time.Duration(verifAnyInt64())
+		verifAssume(slow >= 0 && slow <= 3*srv.upgradeTimeout)
+		cand.onSend = func() {
+			verifSettle() // goroutines that are ready to run do so before time moves on
+			verifAdvance(slow)
+		}
 		c.OnPacket(&parser.Packet{Type: parser.PacketTypeUpgrade})
+		cand.onSend = nil
 		verifAssert(s.TransportName() == "webtransport", "UPGRADE on the candidate completes the swap")
 		verifAssert(old.discards == 1 && closedSock == 0, "the old transport is discarded, the socket stays open")
+		verifWaitQuiescent()
+		if verifIsNative() {
+			time.Sleep(50 * time.Millisecond)
+		}
+		verifAssert(cand.closed == 0 && closedSock == 0, "an upgrade completed in time is not undone by the upgrade timer, however long the backlog takes to flush")
+		verifAssert(verifCountNumbered(cand.sent, '7') == 1, "the backlog of the old transport is delivered on the new one")
 	case 1: // a packet that is not part of the probe exchange
 		tb := verifAnyByte()
 		verifAssume(tb <= 6 && tb != byte(parser.PacketTypePing) && tb != byte(parser.PacketTypeUpgrade))
